@@ -252,6 +252,102 @@ def describe(sc):
                             'pixels)))), P the primary plane'}
 
 
+def mosaic_stream(ck, rng):
+    """two images (two groups) aligned in one align_wcs call with expand_refcat=True: the second image is matched
+    partly to original reference sources and partly to sources appended from the first image. The whole run is repeated
+    through several reference planes (the SAME plane object serves both images, as in align_wcs)."""
+    from astropy.table import Table
+    from tweakwcs import align_wcs
+    from tweakwcs.correctors import FITSWCSCorrector
+    measured = ck.extra.setdefault('measured', {})
+    TOL = 1e-4       # arcsec; measured <= 1e-7; second-order terms 4*corr*r^2 <= ~3e-7 for these fields
+    for t in range(ck.n(10, 120)):
+        base = [(82.0, 12.0), (0.002, -30.0), (359.998, 45.0), (200.0, 70.0), (15.0, -0.001)][t % 5]
+        scale = rng.choice([1e-5, 3e-5, 5e-6])
+        rotA, rotB, sclB = rng.uniform(0, 360), rng.uniform(0, 360), scale * rng.choice([1.0, 1.1])
+        wA_true = A.mkwcs(crval=base, rot=rotA, scale=scale)
+        cB = wA_true.all_pix2world(511.0 + rng.uniform(300, 380), 511.0 + rng.uniform(-120, 120), 0)
+        wB_true = A.mkwcs(crval=(float(cB[0]), float(cB[1])), rot=rotB, scale=sclB)
+        mid = wA_true.all_pix2world(511.0 + 170, 511.0, 0)
+        ra, dec = A.separated_sources(rng, 170, 900 * scale, 32 * scale, center=(float(mid[0]), float(mid[1])))
+        xa, ya, ia = A.observe(wA_true, ra, dec)
+        xb, yb, ib = A.observe(wB_true, ra, dec)
+        ref_idx = ia[xa < 620.0]
+        n_ref_b = len(set(ref_idx) & set(ib))
+        n_app_b = len((set(ia) - set(ref_idx)) & set(ib))
+        if n_ref_b < 4 or n_app_b < 6 or len(ref_idx) < 8:
+            ck.discard('mosaic: second image does not see enough original / appended reference sources')
+            continue
+
+        def with_error(w_true, rot, scl, e):
+            return A.mkwcs(crval=(w_true.wcs.crval[0] + e[0] * scale / math.cos(math.radians(w_true.wcs.crval[1])),
+                                  w_true.wcs.crval[1] + e[1] * scale), rot=rot + e[2], scale=scl * (1 + e[3]))
+        eA = (rng.uniform(-3, 3), rng.uniform(-3, 3), rng.uniform(-0.02, 0.02), rng.uniform(-1e-4, 1e-4))
+        eB = (rng.uniform(-3, 3), rng.uniform(-3, 3), rng.uniform(-0.02, 0.02), rng.uniform(-1e-4, 1e-4))
+        planes = [('default (None)', None, scale),
+                  ('rotated/scaled FITS plane at the mosaic centre',
+                   {'crval': (float(mid[0]), float(mid[1])), 'rot': rng.uniform(0, 360), 'scale': scale * rng.choice([0.5, 2.0])}, None),
+                  ('FITS plane ~900 px off', None, None)]
+        off = wA_true.all_pix2world(511.0 + rng.uniform(-900, -700), 511.0 + rng.uniform(600, 900), 0)
+        planes[2] = (planes[2][0], {'crval': (float(off[0]), float(off[1])), 'rot': rng.uniform(0, 360), 'scale': scale * 1.25}, None)
+        desc = {'stream': 'mosaic with expand_refcat', 'true_wcs_A': {'crval': list(map(float, wA_true.wcs.crval)), 'cd': wA_true.wcs.cd.tolist()},
+                'true_wcs_B': {'crval': list(map(float, wB_true.wcs.crval)), 'cd': wB_true.wcs.cd.tolist()},
+                'errors (dx px, dy px, drot deg, dscale) A, B': [list(eA), list(eB)],
+                'sources_radec': [list(map(float, ra)), list(map(float, dec))], 'reference_rows': [int(i) for i in ref_idx],
+                'call': "align_wcs([A, B], refcat=Table(RA, DEC of reference_rows), ref_tpwcs=plane, expand_refcat=True, "
+                        "enforce_user_order=True, fitgeom='general', nclip=0, match=nearest-neighbour oracle)"}
+        skies = {}
+        for name, par, _ in planes:
+            cA = FITSWCSCorrector(with_error(wA_true, rotA, scale, eA), meta={'catalog': Table([xa, ya], names=('x', 'y')), 'name': 'A'})
+            cBc = FITSWCSCorrector(with_error(wB_true, rotB, sclB, eB), meta={'catalog': Table([xb, yb], names=('x', 'y')), 'name': 'B'})
+            if par is None:
+                plane, unit = None, float(np.sqrt(abs(np.linalg.det(cA.wcs.wcs.cd))))
+            else:
+                plane = FITSWCSCorrector(A.mkwcs(crval=par['crval'], rot=par['rot'], scale=par['scale']))
+                unit = par['scale']
+            ck.search_evaluations += 1
+            ck.count('mosaic_plane', name)
+            rp = dict(desc)
+            rp['plane'] = {'name': name, 'parameters': par}
+            try:
+                align_wcs([cA, cBc], refcat=Table([ra[ref_idx], dec[ref_idx]], names=('RA', 'DEC')), ref_tpwcs=plane,
+                          expand_refcat=True, enforce_user_order=True, fitgeom='general', nclip=0, minobj=None,
+                          match=A.oracle_matcher(14.0 * scale / unit, seed=t))
+            except Exception as e:   # noqa
+                rp.update(kind='alignment-raised', error=repr(e))
+                ck.violation(rp)
+                continue
+            st = [c.meta.get('fit_info', {}).get('status') for c in (cA, cBc)]
+            if st != ['SUCCESS', 'SUCCESS']:
+                rp.update(kind='status-is-not-SUCCESS', status=st)
+                ck.violation(rp)
+                continue
+            nmB = len(cBc.meta['fit_info'].get('matched_input_idx', []))
+            if nmB != n_ref_b + n_app_b:
+                ck.discard('mosaic: matcher did not return every true pair of the second image')
+                continue
+            landA = float(np.max(W.sep_arcsec(*cA.det_to_world(xa, ya), ra[ia], dec[ia])))
+            landB = float(np.max(W.sep_arcsec(*cBc.det_to_world(xb, yb), ra[ib], dec[ib])))
+            measured['mosaic landing arcsec'] = max(measured.get('mosaic landing arcsec', 0.0), landA, landB)
+            ck.case(('mosaic', t, name, tuple(eA), tuple(eB)), True)
+            if not max(landA, landB) <= TOL:
+                rp.update(kind='mosaic-image-does-not-land-on-the-reference', landing_error_arcsec={'A': landA, 'B': landB},
+                          tolerance_arcsec=TOL, pairs_of_B={'original reference rows': n_ref_b, 'rows appended from A': n_app_b})
+                ck.violation(rp)
+            skies[name] = cBc.det_to_world(GRIDX, GRIDY)
+        ref_sky = skies.get('default (None)')
+        for name, sk in skies.items():
+            if ref_sky is None or name == 'default (None)':
+                continue
+            d = float(np.max(W.sep_arcsec(sk[0], sk[1], ref_sky[0], ref_sky[1])))
+            measured['mosaic cross-plane arcsec'] = max(measured.get('mosaic cross-plane arcsec', 0.0), d)
+            if not d <= 2 * TOL:
+                rp = dict(desc)
+                rp.update(kind='mosaic-result-depends-on-the-reference-plane', plane=name, versus='default (None)',
+                          difference_arcsec=d, tolerance_arcsec=2 * TOL)
+                ck.violation(rp)
+
+
 def run(ck):
     implementation()
     from tweakwcs.correctors import _ARCSEC2RAD
@@ -394,3 +490,8 @@ def run(ck):
                            'positions equal to those of the alignment through the primary plane, each within the '
                            'stated bound; gWCS: tp_affine_after = (r F r^-1) o tp_affine_before')
         ck.violation(rp)
+    # ---- mosaics with an expanding reference catalog
+    ck.rule += (' Mosaic stream: two FITS images (two groups), the second matched partly to sources appended from the '
+                'first, aligned in one align_wcs(expand_refcat=True) call through the default plane, a rotated/scaled '
+                'plane and a plane ~900 px off (same plane object for both images).')
+    mosaic_stream(ck, rng)
